@@ -112,13 +112,19 @@ def needs_from_notes(sid):
     for i, l in enumerate(lines):
         if re.search(r"manifest", l, re.I):
             out = []
-            for l2 in lines[i:i + 14]:
+            j = i
+            if l.lstrip().startswith("#") or len(l.strip()) < 45:
+                j = i + 1
+                while j < len(lines) and not lines[j].strip():
+                    j += 1
+            for l2 in lines[j:j + 14]:
                 if out and (not l2.strip() or l2.startswith("#")):
                     break
                 out.append(l2.strip())
             t = " ".join(out)
-            t = re.sub(r"^[#*\-\s]*", "", t)
-            return t[:700]
+            t = re.sub(r"^[#*\\-\\s]*", "", t)
+            t = re.sub(r"^(What is )?[Nn]eeded (for it )?to manifest\\W*", "", t)
+            return t[:600]
     return None
 
 for sid in sorted(os.listdir(os.path.join(HERE, "seeded"))):
@@ -128,7 +134,7 @@ for sid in sorted(os.listdir(os.path.join(HERE, "seeded"))):
     m = json.load(open(f))
     if NEEDS.get(sid):
         m["needs_to_manifest"] = NEEDS[sid]
-    elif sid in WAVE2:
+    elif sid in WAVE2 or sid in ("C17-A", "C17-B"):
         nt = needs_from_notes(sid)
         if nt:
             m["needs_to_manifest"] = nt
